@@ -132,6 +132,9 @@ pub enum ArrMut {
     DupLast,
     SwapFirstTwo,
     AppendFirst,
+    /// append an all-zero element shaped like the last one (hash inputs without length padding
+    /// cannot tell a list from the same list with trailing zeros)
+    AppendZero,
 }
 
 #[derive(Clone, Copy, Debug, PartialEq, Eq)]
@@ -197,8 +200,21 @@ pub fn mutate_array(v: &Value, p: &Path, m: ArrMut) -> Option<Value> {
             let f = a.first()?.clone();
             a.push(f);
         }
+        ArrMut::AppendZero => {
+            let z = zero_like(a.last()?);
+            a.push(z);
+        }
     }
     Some(t)
+}
+
+pub fn zero_like(v: &Value) -> Value {
+    match v {
+        Value::Number(_) => Value::from(0u64),
+        Value::Array(a) => Value::Array(a.iter().map(zero_like).collect()),
+        Value::Object(m) => Value::Object(m.iter().map(|(k, x)| (k.clone(), zero_like(x))).collect()),
+        other => other.clone(),
+    }
 }
 
 pub fn mutate_map(v: &Value, p: &Path, m: MapMut) -> Option<Value> {
